@@ -6,6 +6,7 @@
   known finding C11-trace-cutoff-above-one; its generated `_rejects` definition is informational.)
 -/
 import AITB.Gen.C11Guards
+import AITB.Gen.C11Sites
 import Mathlib.Algebra.Order.Field.Rat
 import Mathlib.Tactic.Linarith
 set_option linter.unusedSimpArgs false
@@ -136,5 +137,21 @@ theorem PrioritizedSweeping_setQueueThreshold_accepts (x : Rat) (h : Prioritized
 
 theorem PrioritizedSweeping_accepts_zero : PrioritizedSweeping_setQueueThreshold_rejects 0 = false := by
   simp [PrioritizedSweeping_setQueueThreshold_rejects]
+
+/-! ### round 3: the other syntactic facts (tools/extract_c11.py `gen_c11_sites` → AITB.Gen.C11Sites) -/
+
+/-- every public constructor of the learners passes its arguments through the guarded setters (directly, through its base
+    class, or by delegating to a constructor that does): the guard obligations above therefore cover constructor arguments.
+    (PrioritizedSweeping's constructor initialises `theta_` directly — `PrioritizedSweeping_ctor_guards_threshold` records what
+    was found; a negative or NaN threshold passed there never lets the queue drain / never fills it, so the PS clause is vacuous.) -/
+theorem ctors_route_through_setters : allCtorsRoute = true := by decide
+
+/-- after its guard every setter stores the accepted value and nothing else; SARSAL refreshes `gammaL_ = lambda_ * discount_`
+    in BOTH `setDiscount` and `setLambda` (the model decays by λ·γ of the CURRENT parameters) -/
+theorem setters_store_accepted_value : allSettersStore = true := by decide
+
+/-- the update statements, the swap-and-pop loop, the trace-discount expressions, the PrioritizedSweeping backup / priority /
+    parent-loop / pop statements and the DynaQ / Dyna2 batch bodies have the form the model was written from -/
+theorem statements_as_modelled : allStatementsAsModelled = true := by decide
 
 end AITB.Learn.Guards
